@@ -15,7 +15,7 @@ SPECS = [
     ('SIG_IP_SALT_LEN', 'src/security.rs',
      r'impl<A: NodeIpAddress> GenericIpNodeID<A>.*?pub fn generate\(.*?let\s+mut\s+salt\s*=\s*vec!\[0u8;\s*([0-9_]+)\s*\]\s*;.*?pub fn verify\(&self\)', 'N'),
     ('SIG_IP_TS_LE', 'src/security.rs',
-     r'fn\s+build_message\b.*?message\.extend_from_slice\(&timestamp_secs\.(to_le_bytes)\(\)\)', 'present'),
+     r'fn\s+build_message\b.*?timestamp_secs\s*\.\s*(to_le_bytes)\(\)', 'present'),
     # write authorisation: signature width checked by the single and the delegated writer
     ('SIG_AUTH_SINGLE_SIG_LEN', 'src/auth/mod.rs',
      r'impl\s+WriteAuth\s+for\s+SingleWriteAuth\b.*?const\s+SIG_LEN\s*:\s*usize\s*=\s*([0-9_]+)\s*;.*?impl\s+WriteAuth\s+for\s+DelegatedWriteAuth\b', 'N'),
@@ -23,5 +23,5 @@ SPECS = [
      r'impl\s+WriteAuth\s+for\s+DelegatedWriteAuth\b.*?const\s+SIG_LEN\s*:\s*usize\s*=\s*([0-9_]+)\s*;.*?impl\s+WriteAuth\s+for\s+MlsWriteAuth\b', 'N'),
     # pinned update keys: valid_until == 0 means "no expiry"
     ('SIG_NO_EXPIRY', 'src/upgrade/config.rs',
-     r'fn\s+is_valid\b.*?self\.valid_until\s*==\s*([0-9_]+)\s*\|\|', 'N'),
+     r'fn\s+is_valid\b.*?self\.valid_until\s*(?:==|!=)\s*([0-9_]+)\b', 'N'),
 ]
